@@ -170,8 +170,9 @@ class Atmo:  # pylint: disable=too-many-instance-attributes
         Returns:
             pressure in hPa
         """
-        p = self._p0 * math.pow(1 + cLapseRateKperFoot * (altitude - self._a0) / (self._t0 + cDegreesCtoK),
-                                cPressureExponent)
+        # the lapse-rate law reaches zero pressure ~145,000 ft above a standard station: no negative base for pow
+        base = max(1 + cLapseRateKperFoot * (altitude - self._a0) / (self._t0 + cDegreesCtoK), 0.0)
+        p = self._p0 * math.pow(base, cPressureExponent)
         return p
 
     def get_density_factor_and_mach_for_altitude(self, altitude: float) -> Tuple[float, float]:
